@@ -5,6 +5,7 @@ package c06
 import (
 	"fmt"
 	"strings"
+	"time"
 
 	"github.com/olive-io/bpmn/v2/verifrt"
 
@@ -147,6 +148,69 @@ func racing(g *drv.Graph, alts int, kind string, seqs [][]int, perGoroutine bool
 	}
 }
 
+// timeout: the classic "event or timeout" pattern: alternative A waits for a signal, alternative
+// T for a one-hour duration timer. Stepwise histories over {A, clock + 1h} (the timer fires
+// once), and the signal racing the clock move.
+func buildTimeout() *drv.Graph {
+	g := drv.NewGraph("c06_timeout")
+	s := g.Add(drv.Start, "start")
+	gw := g.Add(drv.EBG, "G")
+	g.Link(s, gw, nil)
+	for _, alt := range []struct {
+		id  string
+		def drv.EventDef
+	}{{"A", drv.EventDef{Kind: "signal", Ref: "A"}}, {"T", drv.EventDef{Kind: "timer", Sub: "timeDuration", Ref: "PT1H"}}} {
+		c := g.Add(drv.Catch, "c"+alt.id)
+		c.Defs = []drv.EventDef{alt.def}
+		t := g.Add(drv.Task, "t"+alt.id)
+		e := g.Add(drv.End, "end"+alt.id)
+		g.Link(gw, c, nil)
+		g.Link(c, t, nil)
+		g.Link(t, e, nil)
+	}
+	return g
+}
+
+func timeoutRacing(g *drv.Graph) func() {
+	defs := g.Parse()
+	return func() {
+		r := drv.Open(g, defs, drv.OpenOpts{Timer: true})
+		var w *drv.Wait
+		r.AfterStart = func() { w = r.WaitComplete(nil) }
+		r.StartAll()
+		verifrt.WaitIdle()
+		if !r.StartReturned || r.Listening["cA"] != 1 || r.Listening["cT"] != 1 {
+			h.Fail("C06/timeout-racing/arms-all", "after the gateway was reached: StartAll returned %v, listening %v", r.StartReturned, r.Listening)
+			return
+		}
+		returned := 0
+		go func() { r.Signal("A"); returned++ }()
+		go func() { r.Clock.Add(time.Hour); returned++ }()
+		verifrt.WaitIdle()
+		if returned != 2 {
+			h.Fail("C06/timeout-racing/consume-returns", "%d of 2 deliveries (signal, clock move) returned; live: %v", returned, verifrt.LiveRepoGoroutines())
+			return
+		}
+		p := r.PendingIDs()
+		if len(p) != 1 {
+			h.Fail("C06/timeout-racing/exactly-one-winner", "the signal raced the timeout: branch tasks requested %v, want exactly one", p)
+			return
+		}
+		r.Answer(r.Pending(p[0]))
+		verifrt.WaitIdle()
+		go func() { r.Signal("A"); returned++ }()
+		go func() { r.Clock.Add(time.Hour); returned++ }()
+		verifrt.WaitIdle()
+		if returned != 4 || len(r.Tasks) != 1 {
+			h.Fail("C06/timeout-racing/losers-withdrawn", "after the winner %s completed: %d of 4 deliveries returned, requests %d (want 1)", p[0], returned, len(r.Tasks))
+			return
+		}
+		if w == nil || !w.Returned || !w.Result {
+			h.Fail("C06/timeout-racing/completes", "the winner's branch %s was answered but the instance has not completed; live: %v", p[0], verifrt.LiveRepoGoroutines())
+		}
+	}
+}
+
 func init() {
 	h.Register("C06", func(tier string) ([]*h.Scn, []*h.Plain) {
 		var out []*h.Scn
@@ -195,6 +259,23 @@ func init() {
 						out = append(out, sc)
 					}
 				}
+			}
+		}
+		{
+			g := buildTimeout()
+			alphabet := []drv.EventDef{{Kind: "signal", Ref: "A"}, {Kind: "timer", Sub: "timeDuration", Ref: "PT1H"}}
+			for _, d := range []int{0, 1} {
+				el := &drv.EventLock{Sig: "C06/timeout", G: g, Defs: g.Parse(), Events: alphabet, MaxEvents: 3, Open: drv.OpenOpts{Timer: true}}
+				// a duration timer fires once
+				el.AllowEvent = func(m *drv.Model, ev drv.EventDef) bool {
+					return ev.Kind != "timer" || m.Delivered("timer", "PT1H") == 0
+				}
+				out = append(out, &h.Scn{Name: fmt.Sprintf("C06/timeout/stepwise/d%d", d), Body: el.Body(), Opts: verifrt.Options{Bound: d, UseCache: true}, Weight: 2 * (1 + 1000*d), Split: 1 + 3*d})
+				bounds := 1 + 1000*d*d
+				out = append(out, &h.Scn{Name: fmt.Sprintf("C06/timeout/racing/d%d", d), Body: timeoutRacing(g), Opts: verifrt.Options{Bound: d, UseCache: true}, Weight: bounds, Split: 1 + 3*d})
+			}
+			if thorough {
+				out = append(out, &h.Scn{Name: "C06/timeout/racing/d2", Body: timeoutRacing(g), Opts: verifrt.Options{Bound: 2, UseCache: true}, Weight: 4000, Split: 16})
 			}
 		}
 		return out, nil
